@@ -406,9 +406,20 @@ class Engine:
 
     def _build(self):
         eng, base = self, self.base
+        parts = base.split('.')
+        parent = None
+        for i in range(1, len(parts)):  # a dotted base package (proj.ae): its parents exist as packages too
+            m = types.ModuleType('.'.join(parts[:i]))
+            m.__path__ = []
+            self.modules[m.__name__] = m
+            if parent is not None:
+                setattr(parent, parts[i - 1], m)
+            parent = m
         root = types.ModuleType(base)
         root.__path__ = []
         self.modules[base] = root
+        if parent is not None:
+            setattr(parent, parts[-1], root)
         for pkg in self.spec.pkgs:
             mod = types.ModuleType(f'{base}.{pkg}')
             mod.__path__ = []
@@ -664,9 +675,12 @@ def write_disk(spec, root, only=None, style='explicit'):
 
     top = os.path.join(root, *spec.base.split('.'))
     os.makedirs(top, exist_ok=True)
-    p = os.path.join(top, '__init__.py')
-    if not os.path.exists(p):
-        open(p, 'w').close()
+    d_ = root
+    for part in spec.base.split('.'):
+        d_ = os.path.join(d_, part)
+        p = os.path.join(d_, '__init__.py')
+        if not os.path.exists(p):
+            open(p, 'w').close()
     written = []
     for pkg in spec.pkgs:
         if only is not None and pkg not in only:
